@@ -8,7 +8,8 @@
 // ops (M mailbox, Q queue, H handle id chosen by the generator, F filter, T tag, D duration as C hexfloat):
 //   sleep D | put M H SIZE RATE F T | puta M H SIZE RATE F T | putd M H SIZE RATE F T | get M H RATE F T | geta M H RATE F T
 //   wait H | test H | cancel H | setrecv M s|n | clear M | probe M F T
-//   mput Q H | mputa Q H | mputd Q H | mget Q H | mgeta Q H B | mwait H | mwaitfor H D | mtest H | mcancel H
+//   mput Q H | mputa Q H | mputd Q H | mget Q H | mgetfor Q H D | mgeta Q H B | mwait H | mwaitfor H D | mtest H | mcancel H
+//   (mget = the real MessageQueue::get<T>(), mgetfor = the real get<T>(timeout): their buffer is a local of get<T>)
 // filters: n (no match function, public API) a (accept all) sK (other side's actor == K) pB (other's tag % 2 == B)
 //          tK (other's tag < K) iK (other's payload id < K)
 // stdout, one line per event in global order ("query => answer", see Common/Proto.lean):
@@ -447,9 +448,9 @@ static void exec_op(int me, const std::vector<std::string>& t)
     out("r " + std::to_string(me) + " " + op + " " + std::to_string(hid) + " => " + res);
     return;
   }
-  if (op == "mget" || op == "mgeta") {
+  if (op == "mget" || op == "mgeta" || op == "mgetfor") {
     int q = inum(1), hid = inum(2);
-    bool buf   = op == "mget" || inum(3) != 0;
+    bool buf   = op != "mgeta" || inum(3) != 0;
     Handle& h  = handles[hid];
     h.id       = hid;
     h.owner    = me;
@@ -460,9 +461,11 @@ static void exec_op(int me, const std::vector<std::string>& t)
     handle_order.push_back(hid);
     out(cl + " =>");
     std::string res = guarded([&]() -> std::string {
-      if (op == "mget") {
+      if (op == "mget" || op == "mgetfor") {
         h.open        = false;
-        *h.slot       = mq(q)->get<Payload>(); // the real blocking get: its buffer is a local of MessageQueue::get
+        // the real blocking get: its buffer is a local of MessageQueue::get; after a timeout the application has
+        // nothing left to cancel or wait for
+        *h.slot       = op == "mget" ? mq(q)->get<Payload>() : mq(q)->get<Payload>(num(3));
         h.returned_ok = true;
         std::string r = "ok " + payload_str(*h.slot);
         *h.slot       = nullptr;
